@@ -43,6 +43,10 @@
 //!   "kh":  in = [k, segs, parts, fan]  every public entry point that builds a KMV sketch on the
 //!          same u64 data; out = ["ok", [adc, cg, cgl, adck, cv, gbkl, cvl, twin, dst, dstk, dir, adck2, plain, kplain]]
 //!          (see Corr/C15.v check_kh); no ranks travel: Coq hashes the elements itself
+//!   "kx":  in = [k, start, step, count, parts]  count distinct ids start + step*j far below a huge
+//!          sketch size (d of order 10^5: a rank function with fewer than 64 bits collides);
+//!          out = ["ok", [approx_distinct_count, approx_distinct_count_per_key (one key, reversed)]];
+//!          property only (exact count), no model run
 //!   "qh":  in = [comb, c, segs, qs, parts, fan, den, vtype]  every public entry point that builds
 //!          a t-digest on the same data (value = integer / den as vtype f64 | f32 | i32 | u16);
 //!          comb = aq | five | pct | median | med | meddef; out = ["ok", [cg, cgl, cv, gbkl, cvl, cv2]]
@@ -400,6 +404,20 @@ fn run(kind: &str, input: &Value) -> Value {
                 })
                 .collect();
             ok(json!([rj, ranks, pj]))
+        }
+        "kx" => {
+            // exactness far below a huge sketch size: count distinct ids start + step*j
+            let k = input[0].as_u64().unwrap() as usize;
+            let (start, step, count) =
+                (input[1].as_u64().unwrap(), input[2].as_u64().unwrap(), input[3].as_u64().unwrap());
+            let parts = input[4].as_u64().unwrap() as usize;
+            let elems: Vec<u64> = (0..count).map(|j| start + step * j).collect();
+            let p = Pipeline::default();
+            let adc = one(collect(from_vec(&p, elems.clone()).approx_distinct_count(k), parts));
+            let pairs: Vec<(i64, u64)> = elems.iter().rev().map(|&e| (1, e)).collect();
+            let adck = collect(from_vec(&p, pairs).approx_distinct_count_per_key(k), if parts == 0 { 3 } else { 0 });
+            assert!(adck.len() == 1, "one key");
+            ok(json!([fj(adc), fj(adck[0].1)]))
         }
         "kh" => run_kh(input),
         "qh" => run_qh(input),
@@ -976,6 +994,19 @@ fn gen_heavy(seed: u64, tier: Tier) -> Vec<Heavy> {
         kh.push(kh_case(&mut rng, k, &[d], "sampled-error-band"));
         kh.push(kh_case(&mut rng, k, &[d / 3, d / 2], "sampled-error-band"));
     }
+    // exact far below a huge sketch size: with d of order 10^5 distinct values a rank function that
+    // keeps fewer than 64 bits of the hash collides (d^2 / 2^(bits+1) expected pairs)
+    let big: Vec<(u64, u64)> = if thorough { vec![(1 << 19, 300_000), (1 << 20, 600_000)] } else { vec![(1 << 19, 300_000)] };
+    for (k, d) in big {
+        let start = rng.below(1 << 40);
+        let step = 1 + 2 * rng.below(1000);
+        kh.push(Heavy {
+            kind: "kx",
+            input: json!([k, start, step, d, 8]),
+            nt: true,
+            tags: vec!["kmv".into(), "exact-far-below-huge-k".into(), "property-only".into()],
+        });
+    }
     // unusual sketch sizes
     let reps = if thorough { 300 } else { 60 };
     for _ in 0..reps {
@@ -1013,6 +1044,17 @@ fn gen_heavy(seed: u64, tier: Tier) -> Vec<Heavy> {
         if c <= 256 {
             qh.push(qh_case(&mut rng, cf, &[2 * c - 1, 2 * c, 2 * c + 2], "keys-around-2c"));
             qh.push(qh_case(&mut rng, cf, &[4 * c + 3, 3], "n-past-4c"));
+        }
+    }
+    // one partition, c <= n <= 2c: the accumulator that reaches finish() was never merged and
+    // add() never compressed it (finish is the only thing that sorts the centroids)
+    for &c in &[16u64, 32, 64, 128] {
+        for n in [c, c + c / 2, 2 * c] {
+            for parts in [0u64, 1] {
+                let mut h = qh_case(&mut rng, c as f64, &[n], "single-partition-uncompressed");
+                h.input[4] = json!(parts);
+                qh.push(h);
+            }
         }
     }
     let reps = if thorough { 200 } else { 40 };
